@@ -372,6 +372,107 @@ theorem unset_identity_every_route (C : Codecs V P) (T : KindTable) (E : ElemCla
 
 end
 
+/-! #### histories: the last operation decides -/
+
+/-- one operation on property `k` of an element: a write through some set route, or an unset through some unset route -/
+inductive PropOp (V : Type) where
+  | set (route : SetRoute) (v : V)
+  | unset (route : UnsetRoute)
+
+section
+variable {V P : Type}
+
+def stepOp (C : Codecs V P) (T : KindTable) (E : ElemClass) (wn : String → V) (fresh : Fields V) (k : Key) (p : Props P) :
+    PropOp V → Except Err (Props P)
+  | .set route v => setVia C T E wn fresh p k v route
+  | .unset route => unsetVia C T E wn fresh p k route
+
+/-- a history of operations on one property of one element, each applied to the node the previous one left (an
+operation that raises ends the history: the model has no partial states) -/
+def runHistory (C : Codecs V P) (T : KindTable) (E : ElemClass) (wn : String → V) (fresh : Fields V) (k : Key) :
+    List (PropOp V) → Props P → Except Err (Props P)
+  | [], p => .ok p
+  | op :: rest, p =>
+    match stepOp C T E wn fresh k p op with
+    | .ok p' => runHistory C T E wn fresh k rest p'
+    | .error e => .error e
+
+theorem runHistory_append (C : Codecs V P) (T : KindTable) (E : ElemClass) (wn : String → V) (fresh : Fields V) (k : Key)
+    (ops : List (PropOp V)) (op : PropOp V) (p p' : Props P)
+    (h : runHistory C T E wn fresh k (ops ++ [op]) p = .ok p') :
+    ∃ q, runHistory C T E wn fresh k ops p = .ok q ∧ stepOp C T E wn fresh k q op = .ok p' := by
+  induction ops generalizing p with
+  | nil =>
+    simp only [List.nil_append, runHistory] at h
+    cases hq : stepOp C T E wn fresh k p op with
+    | error e => rw [hq] at h; cases h
+    | ok q =>
+      rw [hq] at h
+      cases h
+      exact ⟨p, rfl, hq⟩
+  | cons o os ih =>
+    simp only [List.cons_append, runHistory] at h ⊢
+    cases hq : stepOp C T E wn fresh k p o with
+    | error e => rw [hq] at h; cases h
+    | ok q =>
+      rw [hq] at h
+      exact ih q h
+
+/-- the admissible operations on property `f.key` of an element of class `E` -/
+def OpOK (C : Codecs V P) (T : KindTable) (E : ElemClass) (f : FromRow) : PropOp V → Prop
+  | .set route v => readVal C f (C.enc (rowOf T f).enc [v]) = .ok (some v) ∧
+      (match route with
+       | .attr r => r ∈ E.routes ∧ r.prop = f.key ∧ r.onValue ≠ OnValue.none
+       | _ => True)
+  | .unset route =>
+      (match route with
+       | .attrNone r => r ∈ E.routes ∧ r.prop = f.key ∧ r.onValue ≠ OnValue.none
+       | _ => True)
+
+/--
+**The last operation decides, over all histories**: whatever sequence of writes and unsets — each through any route —
+an element's property went through, and whatever the node held at the start, after a history that ran to its end the
+property reads the value of the last write, or absent if the last operation was an unset.  (Set `v1`, overwrite with
+a falsy `v2`, unset, set again, ...: the per-step theorems hold on *every* node, so they compose.)
+-/
+theorem history_last_op_decides (C : Codecs V P) (T : KindTable) (hT : T ∈ tables) (E : ElemClass) (hE : E ∈ elemClasses)
+    (f : FromRow) (hf : f ∈ T.fromRows) (hp : f.key ∉ pairKeys) (hx : f.key ∉ unsetExempt) (hid : f.gprop ∉ noUnset)
+    (wn : String → V) (fresh : Fields V) (ops : List (PropOp V)) (op : PropOp V) (hop : OpOK C T E f op)
+    (p p' : Props P) (h : runHistory C T E wn fresh f.key (ops ++ [op]) p = .ok p') :
+    readRow C p' f = .ok (match op with | .set _ v => some v | .unset _ => none) := by
+  obtain ⟨q, _, hstep⟩ := runHistory_append C T E wn fresh f.key ops op p p' h
+  cases op with
+  | set route v =>
+    obtain ⟨hlaw, hroute⟩ := hop
+    obtain ⟨p2, h1, h2, _⟩ := set_get_every_route C T hT E hE f hf hp v hlaw route hroute wn fresh q
+    simp only [stepOp] at hstep
+    rw [h1] at hstep
+    cases hstep
+    exact h2
+  | unset route =>
+    simp only [stepOp] at hstep
+    exact (unset_get_every_route C T hT E hE f hf hx hid route hop wn fresh q p' hstep).1
+
+end
+
+/-- non-vacuity: `site` of a node set to "A", overwritten by the empty string through the attribute, unset through
+`set_property(None)`, set to "B" through `set_properties`, unset by assigning `None` to the attribute: the history runs
+to its end (evaluated), and every operation is admissible -/
+def siteRoute : AttrRoute := (elemNode.routes.find? (fun r => r.attr == "site")).getD default
+def siteFrom : FromRow := (nodeTable.fromRows.find? (fun f => f.key == "site")).getD default
+def siteHistory : List (PropOp Val) :=
+  [.set .setProperty (.str "A"), .set (.attr siteRoute) (.str ""), .unset .setPropertyNone,
+   .set .setProperties (.str "B"), .unset (.attrNone siteRoute)]
+
+example : (match runHistory concrete nodeTable elemNode (fun c => Val.jdata c "{}") freshFields "site" siteHistory
+    (Props.empty.set "Name" "n1") with | .ok _ => true | .error _ => false) = true := by decide
+example : ∀ op ∈ siteHistory, OpOK concrete nodeTable elemNode siteFrom op := by
+  intro op hop
+  simp only [siteHistory, List.mem_cons, List.mem_nil_iff, or_false] at hop
+  rcases hop with rfl | rfl | rfl | rfl | rfl <;> simp only [OpOK] <;> decide
+
+
+
 /-! non-vacuity of the route theorems: the `user_data` attribute of a `Node` (the JSON-blob setter), with a value
 that obeys the codec law, through the attribute route -/
 
